@@ -15,9 +15,9 @@ from .common import MachineryError
 FORMATS = ["glyf_colr_0", "glyf_colr_1", "picosvg"]
 
 
-def isometric_scenario(r, pattern):
+def isometric_scenario(r, pattern, quarter_turns=False):
     """pattern: list of glyphs, each a list of class ids (ints).  Every occurrence of a class is an isometric copy of
-    one concrete shape (same size), anywhere in the em."""
+    one concrete shape (same size), anywhere in the em.  quarter_turns: rotations by exact multiples of 90 degrees."""
     vb = r.choice([(0, 0, 100, 100), (0, 0, 24, 24), (0, 0, 128, 128), (10, -5, 64, 64), (0, 0, 200, 100)])
     span = min(vb[2], vb[3])
     shapes = {}
@@ -29,8 +29,13 @@ def isometric_scenario(r, pattern):
                 kind = r.choice(["poly", "blob", "ellipse", "ring", "poly", "blob"])
                 shapes[c] = (f"{kind}:{r.randrange(10**6)}", r.uniform(0.05, 0.09) * span)
             cls, size = shapes[c]
-            a = r.uniform(0, 2 * math.pi)
-            cs, sn = math.cos(a) * size, math.sin(a) * size
+            if quarter_turns:
+                # exact quarter turns (and the identity / half turn): matrices with zeros on the diagonal or off it,
+                # which random angles never produce
+                cs, sn = [(size, 0.0), (0.0, size), (-size, 0.0), (0.0, -size)][r.randrange(4)]
+            else:
+                a = r.uniform(0, 2 * math.pi)
+                cs, sn = math.cos(a) * size, math.sin(a) * size
             m = (cs, sn, -sn, cs, 0, 0)
             if r.random() < 0.5:
                 m = G.mul(m, r.choice([(-1, 0, 0, 1, 0, 0), (1, 0, 0, -1, 0, 0)]))
@@ -219,7 +224,7 @@ def run(chk):
     for k, pat in enumerate(patterns if not quick else patterns[:70]):
         for rep in range(1 if quick else 3):
             r = common.rng("C19", k, rep)
-            glyphs = isometric_scenario(r, pat)
+            glyphs = isometric_scenario(r, pat, quarter_turns=(k % 3 == 2))
             tol = r.choice([0.1, 0.1, 0.25, -1.0])
             for fmt in ([FORMATS[(k + rep) % 3]] if quick else FORMATS):
                 nontrivial = check_one(chk, glyphs, pat, fmt, tol, f"pattern {k}.{rep}", {"seed": [chk.seed, k, rep]})
